@@ -42,12 +42,7 @@ def gen_request(rng, ref, now, far, p_big, present=()):
         cur = ref.get(n, b"")
         testv = []
         for _ in range(rng.choice([0, 0, 1, 2])):
-            o = sc.rand_offset(rng, len(cur), far)
-            l = rng.choice([0, 1, 3, 10, 100])
-            spec = bytes(cur[o:o + l])
-            if rng.random() < 0.08:
-                spec = spec + b"!"
-            testv.append([o, l, hx(spec)])
+            testv.append(sc.rand_testv(rng, cur, far, 0.08))
         datav, _ = sc.rand_datav(rng, len(cur), far)
         if rng.random() < p_big:
             # always strictly too large (offset+len > MAX): a vector that ends exactly at MAX is legal and
@@ -257,6 +252,28 @@ def corpus_recreate_under_other_enabler():
     return {"nodeid": hx(sc.NODEID), "ops": ops}
 
 
+def corpus_testv_length_vs_specimen():
+    """multi-share requests in which ONE test vector has a length exceeding its specimen (the specimen — possibly empty — is
+    only a prefix of the existing longer data): that test must fail, so NONE of the request's writes, to any share,
+    existing or new, may be applied; the publisher's must-not-exist guard `(0, 1, eq, b'')` on an existing share"""
+    s1, s2 = hx(b"\x41" * 32), hx(b"\x81" * 32)
+    return {"nodeid": hx(sc.NODEID), "ops": [
+        ["rtw", 1, 10 ** 12, WE, s1, s2, True, [[0, [], [[0, hx(b"share-zero-data")]], None], [1, [], [[0, hx(b"share-one-data")]], None]], []],
+        ["dump"],
+        # guard on existing share 1 must fail -> shares 0, 1 and new share 2 untouched
+        ["rtw", 2, 10 ** 12, WE, s1, s2, True,
+         [[0, [], [[0, hx(b"XXXX")]], None], [1, [[0, 1, "-"]], [[0, hx(b"YYYY")]], None], [2, [[0, 1, "-"]], [[0, hx(b"new")]], None]], [[0, 20]]],
+        ["readv", [], [[0, 20]]], ["dump"],
+        # prefix specimen on share 0, passing tests elsewhere, a deletion and a truncation in the same request
+        ["rtw", 3, 10 ** 12, WE, s1, s2, False,
+         [[1, [[0, 9, hx(b"share-one")]], [], 0], [0, [[0, 12, hx(b"share-zero")]], [[0, hx(b"ZZ")]], 3], [4, [], [[0, hx(b"n")]], None]], [[0, 20]]],
+        ["readv", [], [[0, 20]]], ["dump"],
+        # the same requests with exact lengths pass and are applied to every share
+        ["rtw", 4, 10 ** 12, WE, s1, s2, False,
+         [[1, [[0, 9, hx(b"share-one")]], [], 0], [0, [[0, 10, hx(b"share-zero")]], [[0, hx(b"ZZ")]], 3], [4, [[0, 1, "-"]], [[0, hx(b"n")]], None]], [[0, 20]]],
+        ["readv", [], [[0, 20]]], ["leases"], ["dump"]]}
+
+
 def corpus_mixed_enablers():
     """two shares recorded under different write enablers; requests with each of them (so that, whatever the
     directory listing order, one request matches the first-listed share only), then with a third one"""
@@ -281,7 +298,8 @@ def run(ctx):
             hists = [ctx.replay["case"]["history"]]
         else:
             hists += [corpus_partial_write(), corpus_mixed_enablers(), corpus_oversize_with_new_length(),
-                      corpus_absent_share_tests(), corpus_recreate_under_other_enabler()]
+                      corpus_absent_share_tests(), corpus_recreate_under_other_enabler(),
+                      corpus_testv_length_vs_specimen()]
             n = 0 if os.environ.get("VERIF_CORPUS_ONLY") else ctx.budget(100, 5000)
             for i in range(n):
                 hists.append(gen_full_history(ctx.rng, ctx.rng.choice([3, 8, 20]), ctx.rng.choice([2000, 2000, 30000]),
